@@ -278,6 +278,7 @@ pub fn glam_value(t: &Ty, env: &TypeEnv, next: &mut u32, rt_len: usize) -> Optio
             Scalar::I32 => format!("{v}i32"),
             Scalar::U32 => format!("{v}u32"),
             Scalar::Bool => "true".into(),
+            Scalar::I64 | Scalar::U64 => format!("{v}"),
         }
     }
     let mut take = |n: &mut u32| {
@@ -292,7 +293,7 @@ pub fn glam_value(t: &Ty, env: &TypeEnv, next: &mut u32, rt_len: usize) -> Optio
                 Scalar::F64 => "DVec",
                 Scalar::U32 => "UVec",
                 Scalar::I32 => "IVec",
-                Scalar::Bool => return None,
+                Scalar::Bool | Scalar::I64 | Scalar::U64 => return None,
             };
             let comps: Vec<String> = (0..*n).map(|_| lit(*s, take(next))).collect();
             format!("glam::{name}{n}::new({})", comps.join(", "))
@@ -344,6 +345,8 @@ pub fn reference_image(t: &Ty, env: &TypeEnv, base: u32, next: &mut u32, rt_len:
         Scalar::I32 => 'i',
         Scalar::U32 => 'u',
         Scalar::Bool => 'b',
+        Scalar::I64 => 'i',
+        Scalar::U64 => 'u',
     };
     match t {
         Ty::Scalar(s) | Ty::Atomic(s) => {
